@@ -42,6 +42,8 @@ def gen(args):
         which = t % 4
         scale = [1.0, 1.0, 1e-5, 3.7e-3, 0.25, 1e3, 7e-7][int(rng.integers(7))]
         N_s, N_f = n_s, m_s
+        if which in (0, 1) and rng.random() < 0.15 and scale in (1.0, 0.25):
+            X = X + int(rng.integers(8000, 12000))       # uncentred data: squared norms ~1e8, distances of order 1..100 (exact in float64)
         if which in (0, 1):
             # sample FPS on X and feature FPS on X^T: the same reference instance (duality)
             N = N_s
@@ -109,8 +111,11 @@ def gen_fx(args):
         X, y = Xi / 4.0, Yi[:, 0] / 4.0
         c = {"id": "fx%d-%d" % (wid, t), "X": Xi.tolist(), "Y": Yi.tolist(), "a": a, "init": [i0 + 1], "steps": [], "table": [], "raised": False,
              "svd": {"U": [], "sv": [], "V": []}}
-        obj = F.PCovFPS(mixing=a / 8.0, initialize=i0, n_to_select=nsel)
-        rec = H.Recorder(obj, "fPCovFPS", X, y, 1, False)
+        # the same data in small units now and then (features and target times cu): the PCovR-modified covariance scales with
+        # cu^2, so do all distances; eigenvalues of X^T X stay far above the documented absolute threshold 1e-12
+        cu = float(rng.choice([1.0, 1.0, 3e-5, 1e2]))
+        obj = core.mk(F.PCovFPS, mixing=a / 8.0, initialize=i0, n_to_select=nsel)
+        rec = H.Recorder(obj, "fPCovFPS", X * cu, y * cu, 1, False)
         try:
             with warnings.catch_warnings():
                 warnings.simplefilter("ignore")
@@ -126,8 +131,8 @@ def gen_fx(args):
                 calls = rec.calls
                 idx = [int(i) + 1 for i in obj.selected_idx_]
                 for k_, (sv_, nsel_, _) in enumerate(calls):
-                    c["steps"].append({"c": idx[nsel_] if nsel_ < len(idx) else 0, "score": fq(np.minimum(sv_, 6e4))})
-                c["table"] = fq(np.minimum(obj.get_distance(), 6e4))
+                    c["steps"].append({"c": idx[nsel_] if nsel_ < len(idx) else 0, "score": fq(np.minimum(sv_ / (cu * cu), 6e4))})
+                c["table"] = fq(np.minimum(obj.get_distance() / (cu * cu), 6e4))
             U, sv, Vt = np.linalg.svd(X, full_matrices=False)
             keep = sv > 1e-6
             c["svd"] = {"U": fq(U[:, keep]), "sv": fq(sv[keep]), "V": fq(Vt[keep].T)}
